@@ -122,7 +122,13 @@ pub fn run(cx: &mut Ctx) {
                 // child processes parse themselves), sometimes without (instantiate must fail)
                 let args = if !p.params.is_empty() && i % 8 != 4 {
                     cx.report.count("programs_with_arguments", 1);
-                    Some(arguments(&to_sim_map(&p.args, &p.params)).to_string())
+                    // every other map also names an argument the program has no parameter for
+                    let mut sim = to_sim_map(&p.args, &p.params);
+                    if (i / 8) % 2 == 0 && p.params.iter().all(|(n, _)| n != "ZZ_UNUSED") {
+                        sim.push(("ZZ_UNUSED".to_string(), to_sim_val(&Val::u(32, 7), &Ty::U(32))));
+                        cx.report.count("programs_with_a_superfluous_argument", 1);
+                    }
+                    Some(arguments(&sim).to_string())
                 } else {
                     None
                 };
